@@ -27,10 +27,43 @@ STRS = ['a', 'b', 'c', 'd', 'x', 'y', 'z', 'zz']
 TUPS = [(0, 1), (1, 2)]
 
 
+# A second decoding of the codes 0..99 ("twin" labels): floats, Fractions and ints whose ordering_key order (type name,
+# then value) is the order of the codes while their natural order is not.  The library may use a label only through
+# hashing, equality and ordering_key, so a case run under this decoding must give the same coded result as under the plain
+# one; the model speaks about codes and their order only, so the theorems cover both decodings.
+TWIN = None
+
+
+def _twin_tables():
+    fw = {}
+    for c in range(100):
+        fw[c] = 20.5 + c if c < 3 else F(2 * c + 1, 2) if c < 6 else c - 6
+    inv = {(type(v).__name__, float(v)): c for c, v in fw.items()}
+    return fw, inv
+
+
+class twin_labels:
+    """context manager: dec / enc use the twin decoding"""
+    def __enter__(self):
+        global TWIN
+        TWIN = _twin_tables()
+
+    def __exit__(self, *a):
+        global TWIN
+        TWIN = None
+
+
+def no_matrix(case):
+    """the case involves no Matrix kind (those index by int and cannot take the twin decoding)"""
+    return "Matrix" not in json.dumps(case)
+
+
 def enc(label):
     """injective, ordering_key-monotone coding of labels as nat"""
     if isinstance(label, bool):
         raise ValueError(label)
+    if TWIN is not None and not isinstance(label, (str, tuple)):
+        return TWIN[1][(type(label).__name__, float(label))]
     if isinstance(label, int):
         assert 0 <= label < 100
         return label
@@ -45,7 +78,7 @@ def enc(label):
 
 def dec(n):
     if n < 100:
-        return n
+        return n if TWIN is None else TWIN[0][n]
     if n < 200:
         return '__a%d' % (n - 100)
     if n < 300:
